@@ -269,8 +269,7 @@ Definition commit_key (s : store) (k : bytes) (l : lockrec) (commit_version : N)
     match get_write_by_start_ts s k (l_ts l) with
     | Some (w, ct) =>
         if op_eqb (w_kind w) OpRollback then (s, Some (KEAbort AbRolledBack))
-        else if ct =? commit_version then (s, None)
-        else (del_lock s k, None)
+        else (del_lock s k, None)      (* own commit record exists: finish the step, remove the lock *)
     | None =>
         (del_lock (put_write s k commit_version {| w_kind := l_kind l; w_start := l_ts l |}) k, None)
     end.
@@ -363,7 +362,14 @@ Definition check_txn_status (c : cfg) (s : store) (primary : bytes) (lock_ts cur
   match get_lock s primary with
   | Some l =>
       if negb (l_ts l =? lock_ts) then (s, cr_err (KELocked primary l))
-      else if is_lock_expired l current_ts then
+      else
+      match (match get_write_by_start_ts s primary lock_ts with
+             | Some (w, ct) => if op_eqb (w_kind w) OpRollback then None else Some ct
+             | None => None
+             end) with
+      | Some ct => (del_lock s primary, cr_ok ActNone 0 ct)   (* committed, lock left behind: remove it *)
+      | None =>
+      if is_lock_expired l current_ts then
         match rollback_key c s primary lock_ts with
         | (s1, None) => (s1, cr_ok ActTTLExpireRollback 0 0)
         | (s1, Some e) => (s1, cr_err e)
@@ -373,6 +379,7 @@ Definition check_txn_status (c : cfg) (s : store) (primary : bytes) (lock_ts cur
                      l_min_commit := wrap64 (caller_start + 1) |} in
         (put_lock s primary l', cr_ok ActMinCommitPushed (l_ttl l) 0)
       else (s, cr_ok ActNone (l_ttl l) 0)
+      end
   | None =>
       match get_write_by_start_ts s primary lock_ts with
       | Some (w, ct) =>
